@@ -8,3 +8,17 @@ package network
 //@   prop C20
 //@   call grpc.NewDummyAuthenticator #1 requires !config.Strictmode
 //@   cover call grpc.NewDummyAuthenticator #1
+
+// ---- C14: after a restart every persistent subscriber is resumed ----
+// Start runs every notifier of the state, whatever it has stored (events that are still being retried
+// are not "failed events"); a notifier that can not be resumed fails the start.
+//@ func (dag.State).Notifiers
+//@   trusted
+//@   benign
+//@ func (dag.Notifier).Run
+//@   trusted
+//@   benign
+//@ func (*Network).Start
+//@   prop C14
+//@   loop @Run invariant $i == 0 || (did(call (dag.Notifier).Run #1) && isNilIface(ret(call (dag.Notifier).Run #1)) && arg(call (dag.Notifier).Run #1, 0) == ret(call (dag.State).Notifiers #1)[$i-1])
+//@   ensures [every-notifier-resumed] isNilIface(result) && !old(n.disabled) ==> did(call (dag.State).Notifiers #1) && $done@Run
